@@ -32,25 +32,34 @@ from . import _c16_summ as SM
 PROPERTY = "C16"
 LEVEL = "exploration"
 RULE = (
-    "Hypothesis-generated class hierarchies (source text, exec'd) x compile order x 3 tables per case; pandas and "
-    "polars families. Non-trivial: hierarchy depth >= 2 with >= 1 field or method override, or an alias / regex "
-    "field / Config extra is present, AND the target class compiled and >= 1 table was validated on both sides. "
-    "Distinct = hash of the canonical JSON case. Classes (labels) give the histogram of features and verdicts; "
-    "required classes: accept and reject verdicts, field override, method override, alias, regex field, Config "
-    "extras, diamond."
+    "Hypothesis-generated class hierarchies (1-4 classes: chains, siblings, two-root mixins, diamonds) rendered to "
+    "source text and exec'd, x the order in which the classes are compiled (definition order, a permutation, or "
+    "incrementally while defining) x 3 tables aimed at the target class; pandas and polars families. 85 % of the "
+    "cases take their choices from a PRNG seeded by one Hypothesis draw (honest feature probabilities), 15 % from "
+    "Hypothesis draws directly (boundary-heavy). 35 % of the cases avoid every feature that triggers a recorded "
+    "defect (label avoids-known-defect-features), so nothing is masked there. Non-trivial: hierarchy depth >= 2 with "
+    ">= 1 field or method override, or an alias / regex field / Config extra is present, AND the target class compiled "
+    "and >= 1 table was validated on both sides. Distinct = hash of the canonical JSON case. Labels give the histogram "
+    "of features (override kinds, Config options, compile order, dtype styles) and of verdicts; required classes: "
+    "accept and reject verdicts, field override, method override, alias, regex field, Config extras, diamond, parser."
 )
 ASSUMPTIONS = [
-    "the object-API DataFrameSchema/Column/Index/Check constructors are the specification of what the options mean "
-    "(C01/C08 check those against the reference model); C16 is differential",
+    "differential oracle: the object-API DataFrameSchema/Column/Index/Check constructors define what the options mean "
+    "(C01/C08 check those against the reference model); the expected schema is computed from the spec only",
     "field order = first definition along the reversed MRO (typing.get_type_hints / dataclasses convention); "
-    "re-annotating a field without a Field resets its options (docs: inheritance 'completely overrides')",
+    "re-annotating a field without assigning a Field resets its options (docs: inheritance 'completely overrides')",
+    "a method name defined in a more derived class replaces the parent's attribute whatever its decorator is "
+    "(ordinary attribute lookup); public field names are unique within a hierarchy (generator precondition)",
     "schema name is only compared when the class's own Config sets `name`; class docstrings are not generated "
     "(description falls back to __doc__)",
     "checks of one component are compared as a multiset (their relative order is not part of the property); "
     "generated parsers of one column are additive, so their order cannot matter",
+    "regex @check patterns select string field names only (re.match, as documented by the '^a' example)",
     "polars: no @parser (not implemented by the polars backend), no frame-level built-in checks / Config extras "
-    "(polars built-ins need a column key), no index fields",
-    "Config.from_format/to_format options are outside the property (they do not reach the schema)",
+    "(polars built-ins need a column key), no index fields, no registered custom checks",
+    "not generated: string / forward-reference annotations, generic models, Config.from_format/to_format, groupby "
+    "checks, class docstrings, MultiIndex uniqueness; Index[T] fields are generated but in this environment masked by "
+    "the recorded Series[T]/Index[T] ValueError (they are scored once that is repaired; verified on a patched copy)",
 ]
 
 
@@ -179,6 +188,8 @@ def features(case):
                 lab.add("config-extras")
             for k in cfg["opts"]:
                 lab.add("config:" + k)
+    if case.get("clean"):
+        lab.add("avoids-known-defect-features")
     if case.get("incremental"):
         lab.add("compile=incremental")
     elif case["order"] != sorted(case["order"]):
@@ -447,17 +458,8 @@ def analysis(case, i):
                 overridden_parsers.add(tag(c, me))
             elif me["kind"] in ("check", "dfcheck") and me["kind"] not in more_derived:
                 overridden_checks_other_kind.add(tag(c, me))
-    # named methods whose CheckInfo / ParserInfo object is compiled by >= 2 classes
-    eff_in = {}
-    for j in range(len(cl)):
-        seen = set()
-        for c in S.mro(cl, j):
-            for me in cl[c]["methods"]:
-                if me["meth"] in seen:
-                    continue
-                seen.add(me["meth"])
-                eff_in.setdefault(tag(c, me), set()).add(j)
-    # pandera also compiles the wrongly inherited (overridden) infos, which share the object as well
+    # named methods whose CheckInfo / ParserInfo object is compiled by >= 2 classes; pandera also compiles the
+    # wrongly inherited (overridden) infos, so every class that has the defining class in its MRO counts
     shared_named = {}
     for c in m:
         for me in cl[c]["methods"]:
@@ -644,11 +646,12 @@ def selftest():
 
 
 FAMILIES = [
-    Family("pandas_models", evaluate, strategy=lambda: G.strategy("pandas"), n_quick=170, n_thorough=1500,
+    Family("pandas_models", evaluate, strategy=lambda: G.strategy("pandas"), n_quick=170, n_thorough=4000,
            shards_quick=5, shards_thorough=12,
            required_labels=["verdict=accept", "verdict=reject", "override-field", "override-method", "alias",
-                            "regex-field", "config-extras", "diamond", "method:parser", "optional"]),
-    Family("polars_models", evaluate, strategy=lambda: G.strategy("polars"), n_quick=150, n_thorough=1500,
+                            "regex-field", "config-extras", "diamond", "method:parser", "optional",
+                            "avoids-known-defect-features"]),
+    Family("polars_models", evaluate, strategy=lambda: G.strategy("polars"), n_quick=150, n_thorough=4000,
            shards_quick=2, shards_thorough=4,
            required_labels=["verdict=accept", "verdict=reject", "override-field", "override-method", "alias",
                             "diamond"]),
